@@ -52,7 +52,7 @@ PROPS = {
                   "the theorems hold for every image `build` returns (build_wf: every built image is well-formed); WF is additionally evaluated (wfB, proved sound) on the model's image of every explored tree"],
  },
  "C08": {
-  "props_modules": ["Ps3.Props.C08", "Ps3.Props.C08b", "Ps3.Props.C08c"],
+  "props_modules": ["Ps3.Props.C08", "Ps3.Props.C08b", "Ps3.Props.C08c", "Ps3.Props.C08d"],
   "streams": [{"name": "viso", "bad_obs": r"valid=(?!ok)|tree=(?!ok)|PANIC|wf=0|NEGATIVE-SIZE"}],
   "rule": "same runs as C07; the implementation's image is checked by a strict validator written from ECMA-119/Joliet (sizes, descriptors, both-endian fields, record lengths, no straddling, ./.. and child links, L/M path tables, extents inside and disjoint, zero padding); well-formed PARAM.SFO files with any key order/entry count for PS3 mode",
   "assumptions": ["validator anchored on the third-party image internal/testutil/testdata/testimg.iso", "duplicate identifiers after mapping are not flagged (not demanded by the property)"],
@@ -178,7 +178,8 @@ LEVEL_TEXT = {
  "C07": "Theorems: every image the model's build produces is well-formed (build_wf, for every tree) and in every well-formed image each file's extent holds exactly the file's bytes followed by zeros to the sector end (any size), reading the extent returns them, files up to 4 GiB-1 get one record with the exact size, larger files get contiguous 0xFFFFF800-byte extents flagged multi-extent plus an unflagged remainder whose lengths sum to the size, portable names are preserved (upper-cased in the primary hierarchy); every extent length fits the 32-bit record field; the scan is complete (scan_complete / layout_tree_complete): every directory reachable from the root is a directory of the image, every directory of the image records exactly its file entries in enumeration order and has all its sub-directories in the image - nothing left out, nothing invented; file_reachable_through_image: every non-empty single-extent file has, in its directory's records, a record with its mapped identifier and exact size whose location, read through the image, yields exactly the file's bytes. "
         "End to end (Props/C07b, against a reader written from ECMA-119 in Spec/IsoTree.lean - root record of the volume descriptor, directory extents, file flags, multi-extent files): reader_finds_root (the descriptor of either hierarchy leads to the root directory), reader_reaches_every_directory (completeness: every directory reachable in the source tree is reached by following records, along exactly its mapped identifiers), reader_reaches_only_source_directories (soundness: whatever the reader reaches is a source directory reachable from the root), reader_reads_every_file (in every directory the assembled files are exactly the recorded ones, each with exactly its bytes - empty, unaligned and >4 GiB multi-extent files included) and files_are_the_source_files (those records are the directory's regular-file entries, each stat'ed to the very inode whose bytes are stored); summed up in image_is_the_tree whose only hypothesis is DirLensFit = no single directory extent reaches 4 GiB (fits_of_dirLens: sector numbers and file extent lengths always fit their 32-bit fields); non-vacuity by kernel evaluation on a concrete tree. "
         "Tie: byte-exact differential against the Lean image + independent ISO reader comparing both hierarchies with the source tree.",
- "C08": "Theorems: size = volume space size x 2048, pad rule (granule 0x20), both-endian agreement for every value, record length byte = encoded size <= 255 because identifiers are cut to fit, no record straddles a sector (gap rule), directory extents are whole sectors, L/M path table entries agree, descriptor headers (1/2/255, CD001, version 1), PS3 sector 0/1 contents; links: every '.' record names its own directory's extent, '..' the parent's, a parent's record for a child carries exactly the location and length of that child's own '.' record, path table entries point at the directories' extents, directories lie back to back; for every built image all file extents lie behind the metadata and before the pad area and are pairwise disjoint; ROUND TRIP (records_roundtrip): an ISO 9660 reader's walk over a directory extent (Spec/IsoDir: length byte, zero byte = skip to the next sector) returns exactly the list of records the generator wrote, for every list of records whose fields fit (decode . encode = id, by induction with the sector-gap rule), hence every directory extent of a generated image below 8 TiB reads back as the records the layout computed; the same round trip for L and M path tables (path_table_roundtrip); directory_reads_back: for every tree, mode and hierarchy, cutting the extent that the records name for directory k out of the generated image and walking it as a reader does yields exactly the records the layout computed for it (position of every directory inside the metadata area + round trip); descriptors_point_to_root: bytes 156..189 of the primary and the supplementary descriptor are the root directory's own . record, naming the sector where that directory is. "
+ "C08": "Theorems: size = volume space size x 2048, pad rule (granule 0x20), both-endian agreement for every value, record length byte = encoded size <= 255 because identifiers are cut to fit, no record straddles a sector (gap rule), directory extents are whole sectors, L/M path table entries agree, descriptor headers (1/2/255, CD001, version 1), PS3 sector 0/1 contents; links: every '.' record names its own directory's extent, '..' the parent's, a parent's record for a child carries exactly the location and length of that child's own '.' record, path table entries point at the directories' extents, directories lie back to back; for every built image all file extents lie behind the metadata and before the pad area and are pairwise disjoint; ROUND TRIP (records_roundtrip): an ISO 9660 reader's walk over a directory extent (Spec/IsoDir: length byte, zero byte = skip to the next sector) returns exactly the list of records the generator wrote, for every list of records whose fields fit (decode . encode = id, by induction with the sector-gap rule), hence every directory extent of a generated image below 8 TiB reads back as the records the layout computed; the same round trip for L and M path tables (path_table_roundtrip); directory_reads_back: for every tree, mode and hierarchy, cutting the extent that the records name for directory k out of the generated image and walking it as a reader does yields exactly the records the layout computed for it (position of every directory inside the metadata area + round trip); descriptors_point_to_root: bytes 156..189 of the primary and the supplementary descriptor are the root directory's own . record, naming the sector where that directory is; "
+        "path tables end to end (C08d): path_table_at_its_location (each of the four tables occupies exactly its sectors of the image), path_table_reads_back (read with the announced size each decodes to the hierarchy's entries, one per directory, each pointing at that directory's extent), descriptors_announce_path_tables (bytes 132..151 of both descriptors carry the table size and the L/M locations the tables were laid out with). "
         "Tie: byte-exact model image + strict independent validator on the implementation's bytes.",
  "C09": "Theorems (no bound on sizes): build_wf - for every world, root and mode the built image is well-formed (metadata exactly as long as the layout arithmetic assumed, files in consecutive runs, pad area); for every well-formed image, every offset and every length, read = slice of the one canonical byte string (metadata ++ padded files ++ pad area); corollaries: progress min(n, size-off), EOF after the end, any Read/Seek/ReadAt sequence observes the same as on the canonical string, sequential chunked reads concatenate, Seek arithmetic. "
         "Tie: op sequences at structural boundaries against the library view; the executable WF check is still evaluated per explored image as a cross-check.",
